@@ -88,6 +88,11 @@ def check_call(cfg, call):
         return v  # C13's business
     if last is None or not last.failed:
         return v
+    if last.kind == "x" and not f.deferred and getattr(last, "timeout", False):
+        if tname != "TimeoutError":
+            v.append(("c04.wrong-exception", f"the last attempt was cut by attempt_timeout_s; "
+                                             f"call() raised {tname} instead of TimeoutError"))
+        return v
     if last.kind == "x" and not f.deferred:
         if ident != last.obj:
             v.append(("c04.wrong-exception",
@@ -125,6 +130,10 @@ def check_call(cfg, call):
             v.append(("c04.err-last-result",
                       f"last_result={lres}, last_exception={lexc}; final attempt returned object "
                       f"{last.obj}"))
+    elif getattr(last, "timeout", False):
+        if lexc != "foreign:TimeoutError" or lres is not None:
+            v.append(("c04.err-last-exception", f"last_exception={lexc} for an attempt cut by "
+                                                f"attempt_timeout_s"))
     else:
         if lexc != last.obj or lres is not None:
             v.append(("c04.err-last-exception",
@@ -216,8 +225,9 @@ def check_execute(cfg, call, no_retry=False, allowed_fault_sites=("strategy", "c
                 good = True
         else:
             want_cause = "exception" if c.kind == "x" else "result"
+            want_exc = "foreign:TimeoutError" if getattr(c, "timeout", False) else c.obj
             if (lk == c.klass and cause == want_cause
-                    and ((c.kind == "x" and lexc == c.obj and lres is None)
+                    and ((c.kind == "x" and lexc == want_exc and lres is None)
                          or (c.kind == "r" and lres == c.obj and lexc is None))):
                 good = True
     if not good:
